@@ -62,11 +62,13 @@ var anchorPreds = map[string]anchorPred{
 		})
 	},
 	"client/setec:(*Store).isActiveSetValid": func(p *eng.Prog, f *ssa.Function) bool {
-		if !recvIs(f, setecPkg, "Store") || len(f.Params) != 1 || f.Signature.Results().Len() != 1 || !resultIs(f, 0, func(t types.Type) bool { return types.Identical(t.Underlying(), types.Typ[types.Bool]) }) {
+		// the validity gate: a bool over the active set (a method of the
+		// store, or a function given the map), nothing else
+		if len(f.Params) != 1 || f.Signature.Results().Len() != 1 || !resultIs(f, 0, func(t types.Type) bool { return types.Identical(t.Underlying(), types.Typ[types.Bool]) }) {
 			return false
 		}
 		for _, l := range mapLoops(f) {
-			if n, isAct := activeMapOf(l.Range.X); isAct && n == "m" {
+			if isActiveSetValue(l.Range.X) {
 				return true
 			}
 		}
@@ -270,4 +272,26 @@ func AnchorSelfCheck(p *eng.Prog) []string {
 		out = append(out, st+" "+key+" candidates="+itoa(n)+" by-name="+eng.FName(byName)+" by-role="+eng.FName(got))
 	}
 	return out
+}
+
+
+// isActiveSetValue: v is the store's map of entries: a load of the guarded
+// group's map to *cachedSecret, or a parameter of that map type whose
+// argument at its single call site is.
+func isActiveSetValue(v ssa.Value) bool {
+	if n, isAct := activeMapOf(v); isAct && n == "m" {
+		return true
+	}
+	if prm, isP := eng.Origin(v).(*ssa.Parameter); isP {
+		if mt, isMap := prm.Type().Underlying().(*types.Map); isMap {
+			if pt, isPtr := mt.Elem().(*types.Pointer); isPtr && eng.IsNamed(pt.Elem(), setecPkg, "cachedSecret") {
+				ox := eng.OriginX(prm)
+				if ox != ssa.Value(prm) {
+					n, isAct := activeMapOf(ox)
+					return isAct && n == "m"
+				}
+			}
+		}
+	}
+	return false
 }
